@@ -197,6 +197,77 @@ def o_robust(mir, tier, seed):
                 model=None, replay=('robust_delegation', ''))
 
 
+# ---- C01: when does relate() take the disjoint-envelope shortcut, and what does it return then
+
+@obligation('C01', 'relate_shortcut_selection', 'RelateOperation::compute_intersection_matrix returns the matrix filled by compute_disjoint(geometry_a, geometry_b) - operands in that order, called exactly once on the empty-disjoint matrix - exactly when either operand has no bounding rectangle or the rectangles do not intersect, and builds no graph on that path; otherwise it does not call compute_disjoint before building the graphs (geometries, bounding_rect and Rect::intersects uninterpreted)')
+def o_relate_shortcut(mir, tier, seed):
+    T = RealTheory()
+    has_a, has_b, inter = z3.Bool('a_has_bbox'), z3.Bool('b_has_bbox'), z3.Bool('bboxes_intersect')
+    ra, rb = ['rect-a'], ['rect-b']
+    calls = []
+
+    def bbox(ip, d):
+        g = deref(d[0])
+        which = g[0] if isinstance(g, list) else g
+        if which == 'geometry-a':
+            return ('fork', [(has_a, Enum('Some', [ra])), (z3.Not(has_a), Enum('None'))])
+        if which == 'geometry-b':
+            return ('fork', [(has_b, Enum('Some', [rb])), (z3.Not(has_b), Enum('None'))])
+        raise Untranslatable('bounding_rect of %r' % (g,))
+
+    def ident(ip, d):
+        return d[0]
+
+    def intersects(ip, d):
+        x, y = deref(d[0]), deref(d[1])
+        if {x[0], y[0]} != {'rect-a', 'rect-b'}:
+            raise Untranslatable('Rect::intersects on unexpected operands')
+        return ('fork', [(inter, True), (z3.Not(inter), False)])
+
+    def empty(ip, d):
+        return ['matrix', 'empty-disjoint']
+
+    def disjoint(ip, d, pc, argv):
+        m, a, b = deref(d[0]), deref(d[1]), deref(d[2])
+        calls.append((pc, list(m), a, b))
+        # write through the &mut reference of THIS path (paths share Python objects otherwise)
+        argv[0].set(['matrix', 'filled-by-compute_disjoint'])
+        return []
+    disjoint.wants_raw = True
+
+    def graph(ip, d):
+        return ('halt', 'graph construction')
+    uf = {
+        're:<dyn algorithm::relate::Relate<.*> as bounding_rect::BoundingRect<\\w+>>::bounding_rect': bbox,
+        're:<BBOX\\d as Into<Option<geo_types::Rect<\\w+>>>>::into': ident,
+        're:<geo_types::Rect<\\w+> as algorithm::intersects::Intersects>::intersects': intersects,
+        'IntersectionMatrix::empty_disjoint': empty,
+        're:IntersectionMatrix::compute_disjoint::<.*>': disjoint,
+        're:<dyn algorithm::relate::Relate<.*> as algorithm::relate::Relate<\\w+>>::geometry_graph': graph,
+    }
+    ip = Interp(mir, T, EXTRA, uf)
+    fn = mir.find('geo', r'relate_operation::<impl at [^>]*>::compute_intersection_matrix')
+    me = [['geometry-a'], ['geometry-b'], 'nodes', 'isolated_edges', 'line_intersector']
+    outs = ip.call_fn(fn, [Ref(lambda: me)], z3.BoolVal(True))
+    shortcut = z3.Not(z3.And(has_a, has_b, inter))
+    bad = [z3.Not(z3.Or([pc for pc, _ in outs]))]
+    for pc, val in outs:
+        if isinstance(val, tuple) and val[0] == 'halted':
+            bad.append(z3.And(pc, shortcut))                      # graph built although the shortcut applies
+        else:
+            v = deref(val)
+            ok = isinstance(v, list) and v[:2] == ['matrix', 'filled-by-compute_disjoint']
+            bad.append(z3.And(pc, z3.Not(shortcut)) if ok else pc)   # returned early without (or with a wrong) matrix
+    for pc, m, a, b in calls:
+        wrong_args = not (m[:2] == ['matrix', 'empty-disjoint'] and a == ['geometry-a'] and b == ['geometry-b'])
+        bad.append(pc if wrong_args else z3.And(pc, z3.Not(shortcut)))
+    for i in range(len(calls)):
+        for j in range(i + 1, len(calls)):
+            bad.append(z3.And(calls[i][0], calls[j][0]))
+    st, info, model = check_unsat('relate_shortcut_selection', [z3.Or(bad)])
+    return dict(theory='Bool; geometries, bounding rectangles, Rect::intersects and the graph pipeline opaque', functions=['RelateOperation::compute_intersection_matrix (prefix up to graph construction)'], paths=len(outs), status=st, info=info, model=None, replay=('relate_shortcut', ''))
+
+
 # ---- C05 kernels
 
 @obligation('C05', 'line_determinant_int', 'for ALL integers: Line::determinant() = start.x*end.y - start.y*end.x (the shoelace term)')
